@@ -48,9 +48,33 @@ def stripL (metaKeys : List String) : List V → List V
   | x :: r => stripV metaKeys x :: stripL metaKeys r
 end
 
-/-- `strip_meta(cfg)`: `if cfg: cfg = recreate_branches(cfg, skip_keys=meta_keys)` -/
-def stripMeta (metaKeys : List String) (root : KV) : KV :=
-  if root.isEmpty then root else stripKV metaKeys root
+/-- `strip_meta(cfg)`: `return recreate_branches(cfg, skip_keys=meta_keys)` (the `if cfg:` guard of earlier
+    versions is gone: an empty configuration is copied too; at the level of values there is no difference) -/
+def stripMeta (metaKeys : List String) (root : KV) : KV := stripKV metaKeys root
+
+/-! ### the other forms of `Namespace.__init__` -/
+
+/-- `Namespace(ns)`: `for key, val in vars(ns).items(): self[key] = val` — the stored names are assigned as they are
+    (a stored name holds no "." and, marked or not, is not itself a clash name: `clashNames` table fact) -/
+def fromNs (kvs : KV) : KV := kvs.foldl (fun acc kv => insert kv.1 kv.2 acc) []
+
+/-- `Namespace(**kwargs)`: argparse's `setattr(self, name, kwargs[name])` for every keyword -/
+def initKwargs (clash : List String) (d : List (String × V)) : Except Err KV :=
+  d.foldlM (fun acc (kv : String × V) => setAttr clash kv.1 kv.2 acc) []
+
+/-- `get_value_and_parent`: `_parse_required_key`, then `(parent_ns[leaf_key], parent_ns, leaf_key)` — the leaf key is
+    returned as stored (clash-marked), and `parent_ns[leaf_key]` finds it because no clash name begins with the mark -/
+def valueAndParent (clash : List String) (key : String) (root : KV) : Except Err (V × KV × SKey) :=
+  withKey clash key fun p l =>
+    match walk p (.ns root) with
+    | some (.ns kvs) =>
+      match lookup l kvs with
+      | some v => .ok (v, kvs, l)
+      | .none => .error .key
+    | _ => .error .key
+
+/-- `namespace_to_dict(ns)`: `ns.clone().as_dict()` -/
+def namespaceToDict (root : KV) : KV := asDict (clone root)
 
 /-! ### `get_sorted_keys` -/
 
